@@ -258,43 +258,43 @@ def recreateViews (h : Heap) (nodes : List Node) : Except (Err × Heap) Heap :=
             { t with vchildren := (t.vchildren.filter (· ≠ view)) ++ [n.tensor] }
           .ok { h with tens := h.tens.filter fun p => p.1 ≠ view }) h
 
-/-- `Tensor._in_place_op(Op, *inputs, constant=…)` with tracking on.  An error carries the heap
-as the failed call leaves it. -/
-def inPlaceOp (h : Heap) (roots : List Nat) (self : Nat) (kind : Kind) (inputs : List Operand)
-    (constant : Option Bool := none) (whereMask : Option (Shape × List Bool) := none) :
-    Except (Err × Heap) Heap := do
-  let live := liveSet h roots
+/-- the bookkeeping `_in_place_op` does on `self` before the graph is duplicated:
+`self.null_grad(_clear_view_info=True)`, then the disconnected-view rule -/
+def inPlacePrelude (h : Heap) (live : List Nat) (self : Nat) : Heap :=
   -- self.null_grad(_clear_view_info=True)
   let h := h.modT self fun t =>
     { t with grad := none, viewGrad := none,
              base := if t.base.isSome ∧ t.creator.isNone then none else t.base }
   -- if self._base is not None and not is_view_child(base=self._base, tensor=self): self._base = None
-  let h := match (h.t self).base with
-    | some b => if (reachesViaViews h live h.fuel b self) then h else h.modT self ({ · with base := none })
-    | none => h
-  let selfIsBase := (h.t self).base.isNone
-  let baseId := ((h.t self).base).getD self
-  let (h, g) ← mkDupGraph h live baseId
+  match (h.t self).base with
+  | some b => if (reachesViaViews h live h.fuel b self) then h else h.modT self ({ · with base := none })
+  | none => h
+
+/-- the window of the copied base that the in-place target occupies: walk base → `self`, replaying the
+placeholders' view ops on the copy -/
+def inPlaceTarget (h : Heap) (g : DupGraph) (self : Nat) (mutArr : Arr) : Except Err (Arr × List ViewFn) :=
+  let path := (g.pathToBase self).reverse.drop 1
+  path.foldlM (fun (acc : Arr × List ViewFn) n =>
+    match replayFn h n.placeholder with
+    | none => .error (if (h.t n.placeholder).creator.isSome then .unmodelled else .other)  -- DisconnectedView
+    | some (vf, _) =>
+      match vf.apply acc.1.d with
+      | .error e => .error e
+      | .ok (d', true) => .ok (⟨acc.1.buf, d'⟩, acc.2 ++ [vf])
+      | .ok (_, false) => .error .assertion)     -- replay on the copy did not give a view
+    (mutArr, [])
+
+/-- everything `_in_place_op` does once the placeholder graph `g` exists -/
+def inPlaceMutate (h : Heap) (g : DupGraph) (self : Nat) (selfIsBase : Bool) (kind : Kind)
+    (inputs : List Operand) (constant : Option Bool) (whereMask : Option (Shape × List Bool)) :
+    Except (Err × Heap) Heap := do
   -- mutant_base = graph.base.tensor.copy()
   let bt := h.t g.base.tensor
   let (h, mutArr) := h.copyArrK bt.data
   let mutConst := bt.const
-  -- `graph.get_path_to_base(self)` raises KeyError when `self` still names the base but is no longer
-  -- among its (transitive) view children (they were cleared with the base's graph)
+  -- `graph.get_path_to_base(self)` raises KeyError when `self` is not in the graph
   if (g.node? self).isNone then throw (.other, h)
-  -- walk base -> self replaying the placeholders' view ops on the copy
-  let path := (g.pathToBase self).reverse.drop 1
-  let walk : Except Err (Arr × List ViewFn) :=
-    path.foldlM (fun (acc : Arr × List ViewFn) n =>
-      match replayFn h n.placeholder with
-      | none => .error (if (h.t n.placeholder).creator.isSome then .unmodelled else .other)  -- DisconnectedView
-      | some (vf, _) =>
-        match vf.apply acc.1.d with
-        | .error e => .error e
-        | .ok (d', true) => .ok (⟨acc.1.buf, d'⟩, acc.2 ++ [vf])
-        | .ok (_, false) => .error .assertion)     -- replay on the copy did not give a view
-      (mutArr, [])
-  let (target, chain) ← withHeap h walk
+  let (target, chain) ← withHeap h (inPlaceTarget h g self mutArr)
   -- `np.broadcast_to` yields a read-only view: writing through it raises inside the guarded call
   if chain.any (fun | .broadcastTo _ => true | _ => false) then
     throw (.valueError, g.restore h)
@@ -319,5 +319,17 @@ def inPlaceOp (h : Heap) (roots : List Nat) (self : Nat) (kind : Kind) (inputs :
   let h := mirror h g.base.tensor mutantBase
   let h := { h with tens := h.tens.filter fun p => p.1 ≠ mutantBase }
   recreateViews h (g.dfs h)
+
+/-- `Tensor._in_place_op(Op, *inputs, constant=…)` with tracking on.  An error carries the heap
+as the failed call leaves it. -/
+def inPlaceOp (h : Heap) (roots : List Nat) (self : Nat) (kind : Kind) (inputs : List Operand)
+    (constant : Option Bool := none) (whereMask : Option (Shape × List Bool) := none) :
+    Except (Err × Heap) Heap := do
+  let live := liveSet h roots
+  let h := inPlacePrelude h live self
+  let selfIsBase := (h.t self).base.isNone
+  let baseId := ((h.t self).base).getD self
+  let (h, g) ← mkDupGraph h live baseId
+  inPlaceMutate h g self selfIsBase kind inputs constant whereMask
 
 end MG.Eng
